@@ -4,6 +4,7 @@ package main
 
 import (
 	"encoding/json"
+	"fmt"
 	"os"
 	"time"
 )
@@ -20,6 +21,7 @@ type ProcCheck struct {
 	Harvest      bool     // also validate the traces harvested from the repository's own test-suite (E6)
 	Storms       []string // scenarios also run as uncontrolled storms of StormN processes
 	StormN       int
+	Also         []*ProcCheck // further scenario sets (other bounds) whose histories are judged together with these
 }
 
 func procCfg(dev, scenarios string, crashes int, emit string, invs []string) string {
@@ -115,6 +117,15 @@ func (c *ProcCheck) Run(e *Env) (*Outcome, *Evidence, error) {
 	if err != nil {
 		return nil, nil, err
 	}
+	for i, a := range c.Also {
+		acov := map[string]any{}
+		o, err := a.collect(e, acov)
+		if err != nil {
+			return nil, nil, err
+		}
+		obs = append(obs, o...)
+		cov[fmt.Sprintf("also_%d_%s", i+1, a.Scenarios)] = acov
+	}
 	fails, js, err := e.judge(c.Prop, obs)
 	if err != nil {
 		return nil, nil, err
@@ -182,8 +193,11 @@ func init() {
 	registry["C03"] = func() Check {
 		return &ProcCheck{Prop: "C03", Scenarios: "CrashScenarios", MaxCrashes: 1,
 			IdealInvs:    []string{"NeverBricked", "AllOrNothing"},
-			Only:         []string{"C03_readable", "C03_only_own_missing", "C03_continues", "C03_acked_survive"},
-			MaxRunsQuick: 1500, Level: "fault_enumeration"}
+			Only:         []string{"C03_readable", "C03_only_own_missing", "C03_continues", "C03_acked_survive", "C03_acked_effects"},
+			MaxRunsQuick: 1500, Level: "fault_enumeration",
+			// two processes, up to two kills: a crash while the damage of an earlier crash is being repaired
+			Also: []*ProcCheck{{Prop: "C03", Scenarios: "CrashScenarios2", MaxCrashes: 2, IdealInvs: []string{"NeverBricked"},
+				Only: []string{"C03_readable", "C03_continues", "C03_acked_survive", "C03_acked_effects"}, MaxRunsQuick: 600}}}
 	}
 	registry["C04"] = func() Check {
 		return &ProcCheck{Prop: "C04", Scenarios: "CrashScenarios", MaxCrashes: 1,
